@@ -60,7 +60,10 @@ def rule_snapshot(rep: Report, m: Fn) -> None:
 
 def rule_state_before_callout(rep: Report, m: Fn, need_clear: bool, need_exception: bool, need_value: Optional[str] = None) -> None:
     loops = delivery_loops(m)
-    first = min((s for s, *_ in loops), key=lambda s: s.index) if loops else None
+    # delivery sites: the loops over the snapshot, and a delegation to the parent's core (which delivers)
+    deleg = [s for s in sites(m) if isinstance(s.node, ast.Call) and (dotted(s.node.func) or "").startswith("super()._on_")]
+    cands = [s for s, *_ in loops] + deleg
+    first = min(cands, key=lambda s: s.index) if cands else None
     def before(pred, what, detail):
         ss = [s for s in sites(m) if pred(s.node)]
         ok = bool(ss) and all("self.lock" in s.ctx.locks for s in ss) and (first is None or all(dominates(s, first) for s in ss))
@@ -214,3 +217,31 @@ def rule_exception_identity(rep: Report, m: Fn, rule: str = "B3-subscribe-branch
     if not found:
         rep.ob(rule, m, f"{m.parent.name}.{m.name}: no test on the recorded exception", False,
                "the late-subscriber branch never distinguishes a recorded error from completion")
+
+
+def rule_subscribe_atomic(rep: Report, cls: Fn, rule: str = "B3-subscribe-branches") -> None:
+    """_subscribe_core decides live-vs-stopped and registers the observer in ONE locked region: a terminal notification
+    running on another thread between the test and the registration would leave the observer on a dead subject."""
+    m = cls.child("_subscribe_core")
+    if m is None:
+        return
+    tests = [s for s in sites(m) if isinstance(s.node, (ast.If, ast.IfExp)) and any(
+        isinstance(x, ast.Attribute) and dotted(x) == "self.is_stopped" for x in ast.walk(s.node.test))]
+    apps = [s for s in sites(m) if isinstance(s.node, ast.Call) and dotted(s.node.func) == "self.observers.append"]
+    par = m.module.parents
+    def with_of(node):
+        n = node
+        while n is not None and n is not m.node:
+            if isinstance(n, ast.With) and any(u(i.context_expr) == "self.lock" for i in n.items):
+                return n
+            n = par.get(n)
+        return None
+    ok = bool(tests) and bool(apps)
+    for t in tests:
+        for a in apps:
+            wt, wa = with_of(t.node), with_of(a.node)
+            ok = ok and wt is not None and wt is wa
+    rep.ob(rule, m, f"{cls.name}._subscribe_core: is_stopped test and observers.append in one `with self.lock`", ok,
+           f"{cls.name}._subscribe_core tests is_stopped and registers the observer in different (or no) locked regions: a "
+           f"subscriber overtaken by on_completed / on_error between the two is appended to a terminated subject and never "
+           f"receives the terminal notification (or the replayed value)")
